@@ -39,6 +39,9 @@ class Ob:
 
 _OBS = []
 _SEED = 0
+# per-obligation wall-clock cap (seconds): keeps a whole tier within a predictable total; an obligation
+# that does not finish within it is reported as inconclusive, never as discharged
+_CAP = int(os.environ.get("VERIF_OBLIGATION_CAP", "600"))
 
 
 def _run_one(idx):
@@ -73,7 +76,7 @@ def _run_one(idx):
             import contextlib
 
             with cm, (ob.setup() if ob.setup is not None else contextlib.nullcontext()), (ob.env() if ob.env is not None else contextlib.nullcontext()):
-                res = symx.explore(ob.fn, max_paths=ob.max_paths, max_seconds=ob.budget_s, stop_on_violation=False, seed=_SEED, max_decisions=ob.max_decisions)
+                res = symx.explore(ob.fn, max_paths=ob.max_paths, max_seconds=min(ob.budget_s, _CAP), stop_on_violation=False, seed=_SEED, max_decisions=ob.max_decisions)
             r = res.as_dict()
             r["shims"] = {m.__name__: sorted((x if isinstance(x, str) else x[0]) for x in n) for m, n in spec.items()}
     except BaseException as exc:  # machinery failure
@@ -274,6 +277,16 @@ def main(argv=None):
         print("obligation not found")
         return 2
     obs = mod.obligations(a.tier)
+    if a.tier == "thorough":
+        # the thorough tier contains the quick tier: a deeper variant that does not finish within its
+        # budget must not leave the property with less coverage than the every-change check
+        have = {o.id: o for o in obs}
+        for o in mod.obligations("quick"):
+            if o.id in have:
+                if have[o.id].bounds == o.bounds:
+                    continue  # same obligation in both tiers
+                o.id = o.id + "@quick"
+            obs.append(o)
     if a.only:
         obs = [o for o in obs if fnmatch.fnmatch(o.id, a.only)]
     return run_property(a.pid, a.tier, obs, extra_assumptions=getattr(mod, "ASSUMPTIONS", ()))
